@@ -46,7 +46,7 @@ theorem table_denotations :
     (∀ o ∈ BinOp.all, o ≠ .plus → o ≠ .minus → T.nud (.op o) = .none) ∧
     (∀ k ∈ [Kind.num, .str, .ident, .tru, .fls, .null, .rp, .rb, .comma, .eof], T.binding k = 0 ∧ T.led k = .none) ∧
     T.led .lp = .none ∧ T.led .lb = .none ∧
-    T.infixExtra = 0 ∧ T.innerBinding = 0 ∧ T.listBinding = 0 := by decide
+    T.infixExtra = 0 ∧ T.infixSub = 0 ∧ T.innerBinding = 0 ∧ T.listBinding = 0 := by decide
 
 /-- every operator token is tied to its own node kind (and through it to its runtime) -/
 theorem table_nodes :
@@ -89,6 +89,7 @@ theorem table_compat : Compat T where
   nudPre := fun p => table_denotations.2.2.2.2.2.2.2.2.1 p (PreOp.mem_all p)
   ledOp := fun o => table_denotations.2.2.2.2.2.2.2.2.2.2.1 o (BinOp.mem_all o)
   infix0 := by decide
+  infixSub0 := by decide
   inner0 := by decide
   list0 := by decide
 
@@ -117,6 +118,15 @@ theorem layout_irrelevant (e : Expr) (ks : List TK) (hp : Prints e .top .none ks
     (ts1 ts2 : List LTok) (l1 l2 : Nat) (h1 : ts1.map (·.tk) = ks) (h2 : ts2.map (·.tk) = ks) :
     Impl.parse T (program ts1 l1) = Impl.parse T (program ts2 l2) := by
   rw [pratt_print_redundant e ks hp ts1 l1 h1, pratt_print_redundant e ks hp ts2 l2 h2]
+
+/-- C03 (the documented grammar is unambiguous): a token sequence is an admissible writing
+    of at most one tree — a consequence of the parser reading every writing back. -/
+theorem prints_unambiguous (e1 e2 : Expr) (ks : List TK) (h1 : Prints e1 .top .none ks)
+    (h2 : Prints e2 .top .none ks) : e1 = e2 := by
+  have a := pratt_print_redundant e1 ks h1 (ks.map (LTok.mk · 1)) 1 (by simp [Function.comp_def])
+  have b := pratt_print_redundant e2 ks h2 (ks.map (LTok.mk · 1)) 1 (by simp [Function.comp_def])
+  rw [a] at b
+  exact Except.ok.inj b
 
 /-- tokens on line 1 -/
 def line1 (ks : List TK) : List LTok := ks.map (LTok.mk · 1)
